@@ -319,7 +319,17 @@ func nodeTemplates() [][2][]Msg {
 	nullKey2 := []Msg{rec([]octosql.Value{octosql.NewNull(), octosql.NewInt(20)}, false, 0), rec(iv(1, 20), false, 0), cl}
 	w5 := []Msg{rec(iv(1, 100), false, 5), cl}
 	w7 := []Msg{rec(iv(1, 200), false, 7), wm(10), cl}
-	return [][2][]Msg{{reins, one}, {one, reins}, {buffered, lower}, {lower, buffered}, {nullKey, nullKey2}, {w5, w7}, {w7, w5}}
+	// two distinct rows share a key, one of them is retracted while the other stays, the other side holds the key
+	twoRows := []Msg{rec(iv(1, 10), false, 0), rec(iv(1, 11), false, 0), rec(iv(1, 10), true, 0), cl}
+	return [][2][]Msg{{reins, one}, {one, reins}, {buffered, lower}, {lower, buffered}, {nullKey, nullKey2}, {twoRows, one}, {one, twoRows}, {w5, w7}, {w7, w5}}
+}
+
+func rowsJSON(rows [][]octosql.Value) []interface{} {
+	out := make([]interface{}, len(rows))
+	for i, row := range rows {
+		out[i] = lib.ValuesJSON(row)
+	}
+	return out
 }
 
 // genChangelog draws a valid changelog (inserts, duplicates, retractions of present rows) with zero and non-zero event times.
@@ -689,6 +699,88 @@ func main() {
 			}
 		}
 	}
+	// CLI: joins one of whose inputs RETRACTS — a GROUP BY ... TRIGGER COUNTING 1 subquery (every record of a group
+	// replaces the group's previous row) — on the right, on the left, for JOIN and LOOKUP JOIN where the grammar allows,
+	// with LIMIT (no ORDER BY), so that the sink and the Limit/OrderSensitiveTransform choice depend on the plan's
+	// NoRetractions flag.  Expected = the relational join of the plain table with the final counts per group
+	// (the counts are computed here; the join by the model in Coq).  Fixed tables first, then random ones.
+	for di := 0; di < 12; di++ {
+		r := rng.Fork()
+		plain := genTable(r, 0, 6, 3)
+		agg := genTable(r, 1, 6, 3)
+		if di < 4 { // fixed: groups of three and one record, an unmatched plain row
+			plain = fixedFamily()[0].tabs[0]
+			agg.rows = nil
+			for _, k := range []float64{1, 1, 1, 2} {
+				agg.rows = append(agg.rows, []octosql.Value{octosql.NewFloat(k), octosql.NewFloat(0), octosql.NewString("u")})
+			}
+		}
+		// final counts per group of k1a, in order of first appearance (NULL is a group of its own)
+		var counts [][]octosql.Value
+		pos := map[string]int{}
+		for _, row := range agg.rows {
+			k := lib.CoqValue(row[0])
+			if p, ok := pos[k]; ok {
+				counts[p][1] = octosql.NewFloat(counts[p][1].Float + 1)
+			} else {
+				pos[k] = len(counts)
+				counts = append(counts, []octosql.Value{row[0], octosql.NewFloat(1)})
+			}
+		}
+		plain.write(filepath.Join(work, "t0.json"))
+		agg.write(filepath.Join(work, "t1.json"))
+		sub := "(SELECT y.k1a AS g, COUNT(*) AS c FROM t1.json y GROUP BY y.k1a TRIGGER COUNTING 1) x1"
+		aggRight := di%2 == 0
+		joinKw := "JOIN"
+		if di%4 >= 2 && aggRight {
+			joinKw = "LOOKUP JOIN"
+		}
+		var q, coqCase string
+		var names []string
+		if aggRight {
+			q = fmt.Sprintf("SELECT * FROM t0.json x0 %s %s ON x0.k0a = x1.g LIMIT 1000", joinKw, sub)
+			names = []string{"k0a", "k0b", "p0", "g", "c"}
+			coqCase = fmt.Sprintf("mkc02 %s 3%%nat [mkjs 0 [CEq 0%%nat 3%%nat] %s 2%%nat] []", rowsCoq(plain.rows), rowsCoq(counts))
+		} else {
+			q = fmt.Sprintf("SELECT * FROM %s JOIN t0.json x0 ON x0.k0a = x1.g LIMIT 1000", sub)
+			names = []string{"g", "c", "k0a", "k0b", "p0"}
+			coqCase = fmt.Sprintf("mkc02 %s 2%%nat [mkjs 0 [CEq 0%%nat 2%%nat] %s 3%%nat] []", rowsCoq(counts), rowsCoq(plain.rows))
+		}
+		for _, opt := range []bool{true, false} {
+			args := []string{q, "-o", "json"}
+			if !opt {
+				args = append(args, "--optimize=false")
+			}
+			cmd := exec.Command(bin, args...)
+			cmd.Env = env
+			cmd.Dir = work
+			var stdout, stderr bytes.Buffer
+			cmd.Stdout, cmd.Stderr = &stdout, &stderr
+			runErr := cmd.Run()
+			var evs []lib.Event
+			var perr error
+			if runErr == nil {
+				evs, perr = parseJSON(stdout.String(), names)
+			}
+			recs := make([]string, len(evs))
+			for k, e := range evs {
+				recs[k] = fmt.Sprintf("mkrec %s false zero_ns", lib.CoqValues(e.Rec.Values))
+			}
+			js := map[string]interface{}{"query": q, "optimize": opt, "plain_table": rowsJSON(plain.rows), "aggregated_table": rowsJSON(agg.rows), "observed": lib.EventsJSON(evs)}
+			idx := cf.Add(coqCase+" "+lib.CoqList(recs)+" [] [] [] None", js, len(evs) > 0)
+			cf.Count("retracting_join_input_with_limit")
+			if runErr != nil {
+				msg := stderr.String()
+				if len(msg) > 400 {
+					msg = msg[len(msg)-400:]
+				}
+				cf.Violation(idx, fmt.Sprintf("the CLI failed on a valid join query (%v): %s", runErr, msg), "")
+			} else if perr != nil {
+				cf.Violation(idx, "unreadable CLI output: "+perr.Error(), "")
+			}
+		}
+	}
+
 	// node level: LookupJoin over changelogs with retractions on the source and on the joined side
 	nl := f.Cases(80, 1200)
 	for i := 0; i < nl; i++ {
@@ -742,7 +834,7 @@ func main() {
 	}
 	for ti, t := range nodeTemplates() {
 		for kind := 0; kind < 4; kind++ {
-			if ti >= 5 && kind != 0 { // the phase-switch witness concerns StreamJoin only
+			if ti >= 7 && kind != 0 { // the phase-switch witness concerns StreamJoin only
 				continue
 			}
 			cfg := config{kind: kind, kl: []int{0}, kr: []int{0}, nl: 2, nr: 2}
